@@ -234,7 +234,17 @@ def median(seq, key=identity):
     if length % 2 == 1:
         return key(sseq[(length - 1) // 2])
     else:
-        return (key(sseq[(length - 1) // 2]) + key(sseq[length // 2])) / 2.0
+        lower = key(sseq[(length - 1) // 2])
+        upper = key(sseq[length // 2])
+        if lower == upper:
+            return lower
+        # Halve before adding: the sum of two large finite values overflows
+        # to infinity, which is not between the two middle values.
+        middle = lower / 2.0 + upper / 2.0
+        if middle != middle:
+            # -inf and +inf: any finite value separates them.
+            middle = 0.0
+        return middle
 
 
 def sortLogNondominated(individuals, k, first_front_only=False):
